@@ -178,13 +178,14 @@ mutual
       parseTerm f st (printTerm t ++ rest) = some ((relabel st t).1, (relabel st t).2, rest)
     | .var n => by
       intro f st rest hok hf
-      simp [termOk] at hok
+      simp [termOk, validName] at hok
       simp [printTerm] at hf
       obtain ⟨g, rfl⟩ : ∃ g, f = g + 1 := ⟨f - 1, by omega⟩
-      simp [printTerm, BinderText.text, parseTerm_word, altVar, hok, relabel, nameChars]
+      simp [printTerm, BinderText.text, parseTerm_word, altVar, hok.1, relabel, nameChars]
     | .lam n b => by
       intro f st rest hok hf
-      simp [termOk] at hok
+      simp [termOk, validName] at hok
+      replace hok := And.intro hok.1.1 hok.2
       simp [printTerm] at hf
       obtain ⟨g, rfl⟩ : ∃ g, f = g + 1 := ⟨f - 1, by omega⟩
       have h1 := skipWs_of_noLeadWs (printTerm_noLeadWs b) (.rpar :: rest)
